@@ -46,7 +46,7 @@ def external_names(fn):
             out.add("E")
         elif e[0] == "len":
             out.add("len")
-        elif e[0] == "var" and e[1] in ("G1", "G2"):
+        elif e[0] == "var" and e[1] in ("G1", "G2", "GN"):
             out.add(e[1])
         elif e[0] == "range":
             out.add("range")
@@ -91,7 +91,16 @@ def draw_config(draw, fn):
                 out.append(v)
         return out
 
-    kind = draw(st.sampled_from(["tooled", "inplace", "probing", "probing", "nested", "overlay-generic", "total"]))
+    kinds = ["tooled", "inplace", "probing", "probing", "nested", "overlay-generic", "total"]
+    if fn["gen"]:
+        # the probe ends while the generator object is still alive (created but not started, or
+        # suspended at a yield); the rest of the script runs after the deactivation
+        kinds += ["probing-leave", "probing-leave", "nested-leave"]
+    kind = draw(st.sampled_from(kinds))
+    if kind == "probing-leave":
+        return (kind, subset(), draw(st.integers(0, 2)))
+    if kind == "nested-leave":
+        return (kind, subset(), subset(), draw(st.integers(0, 2)))
     if kind in ("tooled", "inplace", "overlay-generic"):
         return (kind,)
     if kind == "probing":
@@ -135,6 +144,24 @@ def instrument_and_run(fn, src, recipe, script, config):
             with probing(*[f"f > {n}" for n in config[1]], env={"f": f}):
                 with probing(*[f"f > {n}" for n in config[2]], env={"f": f}):
                     out = PR.run_call(f, fn, recipe, glb, script)
+            if f.__code__ is not original:
+                problems.append("after the probe blocks f.__code__ is not the original code object")
+        elif kind == "probing-leave":
+            import contextlib
+
+            with contextlib.ExitStack() as es:
+                es.enter_context(probing(*[f"f > {n}" for n in config[1]], env={"f": f}))
+                out = PR.run_call(f, fn, recipe, glb, script, leave=es.close, leave_at=config[2])
+            if f.__code__ is not original:
+                problems.append("after the probe block f.__code__ is not the original code object")
+        elif kind == "nested-leave":
+            import contextlib
+
+            # the inner probe ends first, while the generator is alive; the outer one stays
+            with probing(*[f"f > {n}" for n in config[1]], env={"f": f}):
+                with contextlib.ExitStack() as es:
+                    es.enter_context(probing(*[f"f > {n}" for n in config[2]], env={"f": f}))
+                    out = PR.run_call(f, fn, recipe, glb, script, leave=es.close, leave_at=config[3])
             if f.__code__ is not original:
                 problems.append("after the probe blocks f.__code__ is not the original code object")
         elif kind == "overlay-generic":
@@ -202,7 +229,7 @@ def check_case(fn, recipe, script, config, rec=None):
         feats = PG.features(fn)
         bn = PG.bound_names(fn)
         instruments = config[0] in ("tooled", "inplace", "overlay-generic") or any(
-            n in bn for part in config[1:] for n in part
+            n in bn for part in config[1:] if isinstance(part, list) for n in part
         )
         nt = bool(feats & INTERESTING) and instruments
         feats = set(feats) | {"config:" + config[0], "outcome:" + base["result"][0]}
